@@ -34,6 +34,7 @@ Recipient(b, encs) ==
     IF j # 0 THEN encs[j].pub ELSE Published[(IF ECC_FALLBACK_SEL0 THEN 0 ELSE b.sel) + 1]
 BlockVerdict(b, hb, sk, encs) ==
     IF hb.tag # b.tag THEN "block-tag"
+    ELSE IF b.passthru = 1 THEN (IF hb.raw # b.raw THEN "unknown-block-not-passed-through" ELSE "ok")
     ELSE IF b.tag = 1 THEN
         LET u == Unwrap(b.wkey, hb.raw)  plain == CustWrapPlain(Zeros(10) \o sk, b.ck, b.pos) IN
         IF ~u.ok THEN "cust-block-unwrap:" \o u.err ELSE IF u.payload # plain THEN "cust-block-payload"
